@@ -146,12 +146,17 @@ def run(prog, R):
     import C05
     v1, v2 = prog.body(TE + "IntNumber::value"), prog.body(TE + "IntNumber::value_u128")
     if v1 and v2:
-        R.ob("C10.3-value-siblings", "IntNumber::value == IntNumber::value_u128", C05.canonical_body(v1) == C05.canonical_body(v2), v2.at, "identical MIR modulo local names")
+        # the two accessors agree: identical bodies, or one is a plain delegation to the other
+        def _delegates(a_, b_):
+            rs_ = [deep_strip(p_.env.get(0)) for p_ in SymExec(prog, a_).paths() if "__diverged__" not in p_.env]
+            return bool(rs_) and all(isinstance(r_, tuple) and r_[0] == "call" and r_[1] == b_.npath and [deep_strip(x) for x in r_[2]] == [("arg", 1, "self")] for r_ in rs_)
+        same_ = C05.canonical_body(v1) == C05.canonical_body(v2) or _delegates(v2, v1) or _delegates(v1, v2)
+        R.ob("C10.3-value-siblings", "IntNumber::value == IntNumber::value_u128", same_, v2.at, "identical MIR modulo local names, or one delegates to the other")
     else:
         R.ob("ANCHOR", "IntNumber::value/value_u128", False)
     # ---- C10.4 digits, radix, underscores
     if v2:
-        ps = [p for p in SymExec(prog, v2).paths() if "__diverged__" not in p.env]
+        ps = [p for p in SymExec(prog, v2, inline=lambda c: v1 is not None and c == v1.npath).paths() if "__diverged__" not in p.env]
         ok, nfs = True, 0
         det = ""
         for p in ps:
